@@ -3,10 +3,11 @@ import numpy as np
 
 
 class IBM:
-    def __init__(self, modules, kill=None, age=False, log=None, kill_t0=None, swim=None, **kw):
+    def __init__(self, modules, kill=None, age=False, log=None, kill_t0=None, swim=None, settle=None, **kw):
         self.modules = modules
         self.kill = kill or {}
         self.age = age
+        self.settle = settle or {}  # {step: {pid: flag}}: the particle becomes inactive (stays where it is) from that step on
         self.swim = swim  # if given: look up lon/lat of the particles (as a light model would), then move them by `swim` cells in X, in place
         self.kill_t0 = kill_t0  # if given, the kill table is keyed by absolute step (time - kill_t0) / dt
         self.closed = 0
@@ -26,7 +27,16 @@ class IBM:
             lon, lat = self.modules["grid"].xy2ll(state.X, state.Y)
             self.last_lonlat = (lon, lat)
             state.X[:] = state.X + self.swim  # in place, as examples/gosouth does
-        key = step if self.kill_t0 is None else int((timer.time - self.kill_t0) // timer.dt)
+        if self.kill_t0 is None:
+            key = step
+        elif getattr(timer, "time_reversal", False):
+            key = int((self.kill_t0 - timer.time) // timer.dt)
+        else:
+            key = int((timer.time - self.kill_t0) // timer.dt)
+        sflags = self.settle.get(key)
+        if sflags and len(state.X):
+            smask = np.array([sflags.get(int(p), False) for p in state.pid], dtype=bool)
+            state.active[smask] = False
         flags = self.kill.get(key)
         if flags and len(state.X):
             mask = np.array([flags.get(int(p), False) for p in state.pid], dtype=bool)
